@@ -4,7 +4,7 @@ EXTENDS Sdl, Json
 
 AllBodies == SUBSET {"command", "args", "env"}
 NoneAll   == {{}, {"command", "args", "env"}}
-AllKinds  == {"none", "http", "httphosts", "udp", "local", "two", "fan", "bare", "udp80", "as8080", "svcglobal", "rev", "mix"}
+AllKinds  == {"none", "http", "httphosts", "udp", "local", "two", "fan", "bare", "barehosts", "bareonly", "udp80", "as8080", "svcglobal", "rev", "mix"}
 
 CpuM(m)   == [form |-> "m", milli |-> m]
 CpuDec(m) == [form |-> "dec", milli |-> m]
